@@ -491,6 +491,13 @@ V("init-indices-astype-not-other-props", "neutral", ["C01", "C08", "C13", "C15"]
 V("solver-init-skipped", "break", ["C15"], SV,
   "            problem.init()\n", "            if getattr(problem, 'triggers', None) is None:\n                problem.init()\n",
   "a problem that was initialised for an earlier solver is not re-initialised", "Solver.__init__")
+V("backtrack-unsigned-underflow", "break", ["C15"], CP,
+  "    if stacks_top[0] == 0:\n        return False\n    stacks_top[0] -= 1\n",
+  "    new_top = stacks_top[0] - 1\n    if new_top < 0:\n        return False\n    stacks_top[0] = new_top\n",
+  "root test on an unsigned difference: -1 compiled, 255 interpreted", "backtrack")
+V("init-triggers-empty", "break", ["C15", "C13"], PB,
+  "self.triggers = np.zeros((self.shr_domain_nb, self.propagator_nb), dtype=np.uint8)", "self.triggers = np.empty((self.shr_domain_nb, self.propagator_nb), dtype=np.uint8)",
+  "wake-up table accumulated over uninitialised memory", "init")
 V("module-cache", "break", ["C15"], BS,
   "def get_function_addresses() -> Tuple[NDArray, NDArray, NDArray, NDArray]:", "_ADDRESS_CACHE: dict = {}\n\n\ndef get_function_addresses() -> Tuple[NDArray, NDArray, NDArray, NDArray]:\n    if 'a' in _ADDRESS_CACHE:\n        return _ADDRESS_CACHE['a']\n    _ADDRESS_CACHE['a'] = (np.empty(0), np.empty(0), np.empty(0), np.empty(0))",
   "module-level cache written by a function (registrations after the first call are invisible)", "get_function_addresses")
